@@ -99,6 +99,25 @@ def run(ctx):
             cases.append(random_case(rng, rng.choice([4, 5])))
     for i, c in enumerate(cases):
         c["id"] = i + 1
+    run_cases(ctx, cases)
+
+
+def replay(ctx, path):
+    """re-run the stored case (same abstract input; the concretisation of 'bad' is re-drawn from the stored seed)"""
+    j = json.load(open(path))
+    rec = j["case"]
+    rng = random.Random(j.get("seed", 1))
+    i = rec["in"]
+    npeers = len(i["ms"])
+    peers = ["p%d" % k for k in range(1, npeers + 1)]
+    c = mk(rng, npeers, [i["ms"][p] for p in peers], i["cur"], rec["path"], i["bl"], i["prio"], (i["rmin"], i["rmax"]),
+           i["strat"], existing=bool(i["cur"]))
+    c["id"] = 1
+    ctx.rule = "replay of one stored case"
+    run_cases(ctx, [c] * 5)      # five concretisations of the same abstract input
+
+
+def run_cases(ctx, cases):
     inp = os.path.join(ctx.work, "c03_cases.ndjson")
     with open(inp, "w") as f:
         for c in cases:
